@@ -10,17 +10,25 @@
 package rpcread
 
 import (
+	"bytes"
 	"context"
 	"encoding/json"
+	"errors"
 	"fmt"
+	"hash/fnv"
+	"math"
 	"math/big"
 	"sort"
 	"strconv"
 	"strings"
 	"testing"
+	"time"
 
 	"github.com/NethermindEth/juno/core"
 	"github.com/NethermindEth/juno/core/felt"
+	"github.com/NethermindEth/juno/db"
+	"github.com/NethermindEth/juno/db/memory"
+	"github.com/NethermindEth/juno/db/pebblev2"
 	_ "github.com/NethermindEth/juno/encoder/registry"
 	"github.com/NethermindEth/juno/jsonrpc"
 	"github.com/NethermindEth/juno/rpc"
@@ -29,6 +37,8 @@ import (
 	rpcv9 "github.com/NethermindEth/juno/rpc/v9"
 	"github.com/NethermindEth/juno/sync"
 	"github.com/NethermindEth/juno/utils/log"
+	pebv2 "github.com/cockroachdb/pebble/v2"
+	vfsv2 "github.com/cockroachdb/pebble/v2/vfs"
 
 	"verifharness/internal/chainkit"
 	"verifharness/internal/vh"
@@ -64,6 +74,14 @@ type action struct {
 	I      int      `json:"i"`
 	C      int      `json:"c"`
 	S      int      `json:"s"`
+	// Restart
+	Graceful bool `json:"graceful"`
+	// ReadDuring: the request in flight and the mutators applied while it is being served
+	Read *action  `json:"read,omitempty"`
+	Muts []action `json:"muts,omitempty"`
+	// state after a mutator of a ReadDuring step
+	Chain []int `json:"chain,omitempty"`
+	L1    int   `json:"l1,omitempty"`
 }
 
 // result is the abstract answer of a read (union over the kinds of RpcRead.tla).
@@ -86,6 +104,8 @@ type result struct {
 	V      int      `json:"v"`
 	C      int      `json:"c,omitempty"`
 	Note   string   `json:"note,omitempty"` // harness-side detail of a concrete mismatch
+	// kind "oneof" (ReadDuring): the answer in each chain the node held during the call
+	Allowed []result `json:"allowed,omitempty"`
 }
 
 type step struct {
@@ -100,7 +120,12 @@ type input struct {
 	Behaviours [][]step `json:"behaviours"`
 	Backends   []string `json:"backends"` // subset of {"legacy","newstate"}; default both
 	First      int      `json:"first"`    // index of the first behaviour (seeds the concretisation)
+	Huge       int      `json:"huge"`     // the model's HugeNum (stands for 2^64-1); default 5
 }
+
+const hugeIdx = 1000000 // the model's HugeIdx, stands for 2^62
+
+var hugeNum = 5
 
 // ---------------------------------------------------------------- concretisation
 
@@ -168,10 +193,17 @@ func (w *world) tx(t int) (core.Transaction, *core.TransactionReceipt) {
 		kind = []string{"declare3", "declare2", "declare1"}[(t/10)%3]
 	case 6:
 		kind = "deploy"
+	case 8:
+		kind = "invoke0"
 	default:
 		kind = "invoke0"
 	}
 	tx := g.Tx(kind)
+	if l1, ok := tx.(*core.L1HandlerTransaction); ok && t%10 == 7 {
+		// legacy form: early L1 handlers carry no nonce; their hash is not recomputed
+		l1.Nonce = nil
+		chainkit.SetTxHash(tx, g.Felt())
+	}
 	if kind == "deploy" {
 		// core.TransactionHash does not compute legacy DEPLOY hashes (it returns the field as is)
 		chainkit.SetTxHash(tx, g.Felt())
@@ -249,22 +281,42 @@ func (w *world) spec(a *action) chainkit.BlockSpec {
 var versions = []string{"v8", "v9", "v10"}
 
 type sut struct {
-	node    *chainkit.Node
-	servers map[string]*jsonrpc.Server
-	built   map[string]*chainkit.Built // path -> block as stored at some point
-	byHash  map[string]string          // block hash -> path
-	backend string
+	node     *chainkit.Node
+	store    *probeStore
+	newState bool
+	servers  map[string]*jsonrpc.Server
+	built    map[string]*chainkit.Built // path -> block as stored at some point
+	byHash   map[string]string          // block hash -> path
+	backend  string
+	closeDB  func()
 }
 
-func newSUT(newState bool) (*sut, error) {
-	node := chainkit.NewNode(nil, newState)
-	logger := log.NewNopZapLogger()
-	h := rpc.New(node.BC, &sync.NoopSynchronizer{}, nil, "verif", logger, chainkit.Network)
-	s := &sut{node: node, servers: map[string]*jsonrpc.Server{}, built: map[string]*chainkit.Built{},
-		byHash: map[string]string{}, backend: "legacy"}
-	if newState {
-		s.backend = "newstate"
+// backends: state backend x database, always behind the poisoning / gating probe
+//
+//	legacy    deprecated state on db/memory
+//	newstate  new state on db/memory
+//	pebble    deprecated state on pebblev2 (in-memory file system)
+func newSUT(backend string) (*sut, error) {
+	var inner db.KeyValueStore = memory.New()
+	closeDB := func() {}
+	if backend == "pebble" {
+		pdb, err := pebblev2.New("verif-mem", func(o *pebv2.Options) error { o.FS = vfsv2.NewMem(); return nil })
+		if err != nil {
+			return nil, err
+		}
+		inner, closeDB = pdb, func() { pdb.Close() }
 	}
+	s := &sut{store: newProbeStore(inner), newState: backend == "newstate", built: map[string]*chainkit.Built{},
+		byHash: map[string]string{}, backend: backend, closeDB: closeDB}
+	s.node = chainkit.NewNode(s.store, s.newState)
+	return s, s.mount()
+}
+
+// mount builds a fresh rpc.Handler and the three servers on the current Blockchain object.
+func (s *sut) mount() error {
+	logger := log.NewNopZapLogger()
+	h := rpc.New(s.node.BC, &sync.NoopSynchronizer{}, nil, "verif", logger, chainkit.Network)
+	s.servers = map[string]*jsonrpc.Server{}
 	m8, _ := h.MethodsV0_8()
 	m9, _ := h.MethodsV0_9()
 	m10, _ := h.MethodsV0_10()
@@ -282,11 +334,22 @@ func newSUT(newState bool) (*sut, error) {
 			srv = srv.WithValidator(rpcv10.Validator())
 		}
 		if err := srv.RegisterMethods(x.ms...); err != nil {
-			return nil, err
+			return err
 		}
 		s.servers[x.v] = srv
 	}
-	return s, nil
+	return nil
+}
+
+// restart replaces every juno object (Blockchain, rpc.Handler, servers) by new ones on the same store.
+func (s *sut) restart(graceful bool) error {
+	if graceful {
+		if err := s.node.BC.WriteRunningEventFilter(); err != nil {
+			return err
+		}
+	}
+	s.node = s.node.Restart()
+	return s.mount()
 }
 
 func (s *sut) hashOf(w *world, p []int) *felt.Felt {
@@ -323,23 +386,77 @@ func (s *sut) rootOf(p []int) string {
 	return "?"
 }
 
-func (s *sut) call(version, method string, params map[string]any) (map[string]any, string, error) {
+var errHang = errors.New("no response within the watchdog time")
+
+const (
+	callTimeout = 20 * time.Second
+	// how long a mutator may be blocked by the paused in-flight request before the request is let
+	// go (code that serialises readers and writers with a lock is correct, not hung)
+	raceGrace = 2 * time.Second
+	maxHangs  = 3
+)
+
+var hangs int // hangs observed so far; the run stops reporting more after maxHangs
+
+// guarded runs fn on its own goroutine under recover and a watchdog: a panic or a hang of the real
+// code becomes an error the replayer turns into a keyed divergence (the goroutine of a hang leaks).
+func guarded(fn func() error) error {
+	done := make(chan error, 1)
+	go func() {
+		defer func() {
+			if p := recover(); p != nil {
+				done <- fmt.Errorf("panic: %v", p)
+			}
+		}()
+		done <- fn()
+	}()
+	select {
+	case err := <-done:
+		return err
+	case <-time.After(callTimeout):
+		hangs++
+		return errHang
+	}
+}
+
+func requestJSON(method string, params map[string]any) string {
 	req := map[string]any{"jsonrpc": "2.0", "id": 1, "method": "starknet_" + method}
 	if params != nil {
 		req["params"] = params
 	}
 	raw, _ := json.Marshal(req)
-	out, _, err := s.servers[version].HandleReader(context.Background(), strings.NewReader(string(raw)))
-	if err != nil {
-		return nil, string(raw), err
-	}
-	dec := json.NewDecoder(strings.NewReader(string(out)))
+	return string(raw)
+}
+
+func (s *sut) handle(version, req string) ([]byte, error) {
+	out, _, err := s.servers[version].HandleReader(context.Background(), strings.NewReader(req))
+	return out, err
+}
+
+func decode(out []byte) (map[string]any, error) {
+	dec := json.NewDecoder(bytes.NewReader(out))
 	dec.UseNumber()
 	var resp map[string]any
 	if err := dec.Decode(&resp); err != nil {
-		return nil, string(raw), fmt.Errorf("unparsable response %q: %v", string(out), err)
+		return nil, fmt.Errorf("unparsable response %q: %v", string(out), err)
 	}
-	return resp, string(raw), nil
+	return resp, nil
+}
+
+// call sends one request; out is the very byte slice the server returned (kept by the replayer to
+// check that it is not modified by later calls).
+func (s *sut) call(version, method string, params map[string]any) (resp map[string]any, out []byte, req string, err error) {
+	req = requestJSON(method, params)
+	err = guarded(func() error {
+		var herr error
+		out, herr = s.handle(version, req)
+		return herr
+	})
+	if err != nil {
+		return nil, nil, req, err
+	}
+	resp, err = decode(out)
+	return resp, out, req, err
 }
 
 // ---------------------------------------------------------------- requests
@@ -347,12 +464,28 @@ func (s *sut) call(version, method string, params map[string]any) (map[string]an
 func (s *sut) idParam(w *world, id *blockID) any {
 	switch id.K {
 	case "num":
+		if id.N == hugeNum {
+			return map[string]any{"block_number": uint64(math.MaxUint64)}
+		}
 		return map[string]any{"block_number": id.N}
 	case "hash":
-		return map[string]any{"block_hash": s.hashOf(w, id.H).String()}
+		return map[string]any{"block_hash": spell(s.hashOf(w, id.H), len(id.H))}
 	default:
 		return id.K
 	}
+}
+
+// spell writes a felt in one of the spellings a client may use: canonical, zero-padded to 64
+// digits, upper-case digits.
+func spell(f *felt.Felt, variant int) string {
+	h := strings.TrimPrefix(f.String(), "0x")
+	switch variant % 3 {
+	case 1:
+		return "0x" + strings.Repeat("0", 64-len(h)) + h
+	case 2:
+		return "0x" + strings.ToUpper(h)
+	}
+	return "0x" + h
 }
 
 func (s *sut) params(w *world, a *action) map[string]any {
@@ -367,10 +500,13 @@ func (s *sut) params(w *world, a *action) map[string]any {
 		if a.T == 99 {
 			p["transaction_hash"] = w.unknownH.String()
 		} else {
-			p["transaction_hash"] = w.txHash(a.T).String()
+			p["transaction_hash"] = spell(w.txHash(a.T), a.T)
 		}
 	case "getTransactionByBlockIdAndIndex":
 		p["index"] = a.I
+		if a.I == hugeIdx {
+			p["index"] = int64(1) << 62
+		}
 	case "getStorageAt":
 		p["contract_address"] = w.addr[a.C].String()
 		p["key"] = w.slot[a.S].String()
@@ -526,6 +662,9 @@ func (s *sut) project(w *world, a *action, resp map[string]any) result {
 					b.Block.Timestamp, b.Block.ProtocolVersion)
 			}
 		}
+		if _, ok := m["transactions"].([]any); !ok {
+			note(&res, "transactions is %v, not a list", m["transactions"])
+		}
 		for _, x := range arr(m["transactions"]) {
 			switch a.Name {
 			case "getBlockWithTxHashes":
@@ -566,6 +705,11 @@ func (s *sut) project(w *world, a *action, resp map[string]any) result {
 			if str(obj(m["actual_fee"])["amount"]) != rc.Fee.String() {
 				note(&res, "actual_fee %v, stored receipt has %s", obj(m["actual_fee"])["amount"], rc.Fee)
 			}
+			_, evOK := m["events"].([]any)
+			_, msgOK := m["messages_sent"].([]any)
+			if !evOK || !msgOK {
+				note(&res, "events / messages_sent is not a list")
+			}
 			if len(arr(m["events"])) != len(rc.Events) || len(arr(m["messages_sent"])) != len(rc.L2ToL1Message) {
 				note(&res, "events/messages %d/%d, stored receipt has %d/%d", len(arr(m["events"])), len(arr(m["messages_sent"])),
 					len(rc.Events), len(rc.L2ToL1Message))
@@ -592,6 +736,12 @@ func (s *sut) project(w *world, a *action, resp map[string]any) result {
 		}
 		sd := obj(m["state_diff"])
 		d := &diffT{}
+		for _, f := range []string{"storage_diffs", "nonces", "deployed_contracts", "replaced_classes",
+			"deprecated_declared_classes", "declared_classes"} {
+			if _, ok := sd[f].([]any); !ok {
+				note(&res, "state_diff.%s is %v, not a list", f, sd[f])
+			}
+		}
 		for _, x := range arr(sd["storage_diffs"]) {
 			c := inv(w.addr, obj(x)["address"])
 			for _, e := range arr(obj(x)["storage_entries"]) {
@@ -644,7 +794,7 @@ func (s *sut) project(w *world, a *action, resp map[string]any) result {
 
 func txType(t int) string {
 	switch t % 10 {
-	case 1, 3:
+	case 1, 3, 8:
 		return "INVOKE"
 	case 2, 7:
 		return "L1_HANDLER"
@@ -873,14 +1023,29 @@ func canonSort(x []any) []any {
 
 // ---------------------------------------------------------------- replay
 
-type replayer struct {
-	t   *testing.T
-	out *vh.Result
-	w   *world
-	s   *sut
+type retained struct {
+	label string
+	live  []byte // the slice the server handed back
+	copy  []byte // its content when it was handed back
 }
 
+type replayer struct {
+	t        *testing.T
+	out      *vh.Result
+	w        *world
+	s        *sut
+	retained []retained
+	dead     bool // the behaviour was abandoned on this backend after a mutator misbehaved
+}
+
+// errAbandon marks a mutator failure already reported as a divergence.
+var errAbandon = errors.New("behaviour abandoned")
+
 func (r *replayer) mutate(a *action) error {
+	return guarded(func() error { return r.mutate1(a) })
+}
+
+func (r *replayer) mutate1(a *action) error {
 	switch a.Name {
 	case "Store":
 		b, err := r.s.node.Build(r.w.spec(a))
@@ -892,7 +1057,7 @@ func (r *replayer) mutate(a *action) error {
 		}
 		pk := pathKey(a.Path)
 		if old, ok := r.s.built[pk]; ok && !old.Block.Hash.Equal(b.Block.Hash) {
-			return fmt.Errorf("path %s re-built with another hash (concretisation is not deterministic)", pk)
+			return fmt.Errorf("path %s re-built with another hash than before", pk)
 		}
 		r.s.built[pk] = b
 		r.s.byHash[b.Block.Hash.String()] = pk
@@ -901,102 +1066,181 @@ func (r *replayer) mutate(a *action) error {
 		return r.s.node.BC.RevertHead()
 	case "SetL1Head":
 		head := &core.L1Head{BlockNumber: uint64(a.N), BlockHash: r.s.hashOf(r.w, a.Path), StateRoot: r.w.unknownH}
+		if a.N == hugeNum {
+			head.BlockNumber = math.MaxUint64
+		}
 		if b, ok := r.s.built[pathKey(a.Path)]; ok {
 			head.StateRoot = b.Block.GlobalStateRoot
 		}
 		return r.s.node.BC.SetL1Head(head)
+	case "Restart":
+		return r.s.restart(a.Graceful)
 	}
 	return fmt.Errorf("unknown mutator %q", a.Name)
 }
 
 // checkHeld compares what the node holds (asked directly, not through RPC) with the model's
-// chain and L1 head after a mutating step; a difference here is a broken harness, not a finding.
-func (r *replayer) checkHeld(st *step) error {
-	h, err := r.s.node.BC.Height()
-	if len(st.Chain) == 0 {
-		if err == nil {
-			return fmt.Errorf("model chain is empty, node has height %d", h)
+// chain and L1 head after a mutating step.
+func (r *replayer) checkHeld(chain []int, l1 int) error {
+	return guarded(func() error {
+		h, err := r.s.node.BC.Height()
+		if len(chain) == 0 {
+			if err == nil {
+				return fmt.Errorf("model chain is empty, node has height %d", h)
+			}
+		} else {
+			if err != nil || int(h) != len(chain)-1 {
+				return fmt.Errorf("model height %d, node height %d (%v)", len(chain)-1, h, err)
+			}
+			hd, err := r.s.node.BC.HeadsHeader()
+			if err != nil || !hd.Hash.Equal(r.s.built[pathKey(chain)].Block.Hash) {
+				return fmt.Errorf("head hash differs from the block built for path %v (%v)", chain, err)
+			}
 		}
-	} else {
-		if err != nil || int(h) != len(st.Chain)-1 {
-			return fmt.Errorf("model height %d, node height %d (%v)", len(st.Chain)-1, h, err)
+		got, err := r.s.node.BC.L1Head()
+		want := uint64(l1)
+		if l1 == hugeNum {
+			want = math.MaxUint64
 		}
-		hd, err := r.s.node.BC.HeadsHeader()
-		if err != nil || !hd.Hash.Equal(r.s.built[pathKey(st.Chain)].Block.Hash) {
-			return fmt.Errorf("head hash differs from the block built for path %v (%v)", st.Chain, err)
+		if (l1 == -1) != (err != nil) || (err == nil && got.BlockNumber != want) {
+			return fmt.Errorf("model l1 %d, node l1 %v (%v)", l1, got.BlockNumber, err)
 		}
+		return nil
+	})
+}
+
+// applyMutator runs one mutator and checks what the node then holds. Misbehaviour of the real
+// code here (an error, a panic, a hang, a wrong head) is a keyed divergence, after which the
+// behaviour is abandoned on this backend.
+func (r *replayer) applyMutator(beh []step, idx int, a *action, chain []int, l1 int) error {
+	r.checkRetained(beh, idx)
+	if err := r.mutate(a); err != nil {
+		kind := "error"
+		if errors.Is(err, errHang) {
+			kind = "hang"
+		} else if strings.HasPrefix(err.Error(), "panic:") {
+			kind = "panic"
+		}
+		r.diverge(fmt.Sprintf("rpc-read:mutator:%s:%s", a.Name, kind),
+			fmt.Sprintf("%s on %s failed on a chain the specification allows: %v", a.Name, r.s.backend, err), beh, idx, nil, err.Error())
+		r.dead = true
+		return errAbandon
 	}
-	l1, err := r.s.node.BC.L1Head()
-	if (st.L1 == -1) != (err != nil) || (err == nil && int(l1.BlockNumber) != st.L1) {
-		return fmt.Errorf("model l1 %d, node l1 %v (%v)", st.L1, l1.BlockNumber, err)
+	if err := r.checkHeld(chain, l1); err != nil {
+		r.diverge(fmt.Sprintf("rpc-read:held-after:%s", a.Name),
+			fmt.Sprintf("after %s on %s the node does not hold the model's chain %v / L1 head %d: %v", a.Name, r.s.backend, chain, l1, err),
+			beh, idx, vh.J{"chain": chain, "l1": l1}, err.Error())
+		r.dead = true
+		return errAbandon
 	}
+	r.out.Count("mutations_"+a.Name, 1)
+	r.checkRetained(beh, idx)
 	return nil
 }
 
-func (r *replayer) diverge(key, what string, beh []step, idx int, exp, obs any) {
-	r.out.Diverge(vh.Divergence{Key: key, What: what, Step: idx,
-		Input:    vh.J{"behaviours": [][]step{beh[:idx+1]}, "backends": []string{r.s.backend}},
-		Expected: exp, Observed: obs})
+// keep remembers a response buffer; checkRetained verifies that no later call changed it.
+func (r *replayer) keep(label string, out []byte) {
+	if len(r.retained) >= 96 {
+		r.retained = r.retained[32:]
+	}
+	r.retained = append(r.retained, retained{label: label, live: out, copy: bytes.Clone(out)})
 }
 
-func (r *replayer) read(beh []step, idx int) {
-	st := &beh[idx]
-	a := &st.A
-	params := r.s.params(r.w, a)
-	raw := map[string]map[string]any{}
-	shape := idShape(a, len(st.Chain))
+func (r *replayer) checkRetained(beh []step, idx int) {
+	for i := range r.retained {
+		x := &r.retained[i]
+		if !bytes.Equal(x.live, x.copy) {
+			r.diverge("rpc-read:"+x.label+":response-changed-after-return",
+				"a response handed back earlier was modified by a later call", beh, idx, string(x.copy), string(x.live))
+			x.copy = bytes.Clone(x.live)
+		}
+	}
+	r.out.Count("retained_response_checks", len(r.retained))
+}
+
+func (r *replayer) diverge(key, what string, beh []step, idx int, exp, obs any) {
+	in := vh.J{"behaviours": [][]step{beh[:idx+1]}, "backends": []string{r.s.backend}, "huge": hugeNum}
+	r.out.Diverge(vh.Divergence{Key: key, What: what, Step: idx, Input: in, Expected: exp, Observed: obs})
+}
+
+func isTag(a *action) bool {
+	return a.ID != nil && (a.ID.K == "l1_accepted" || a.ID.K == "pre_confirmed")
+}
+
+func shapeOf(a *action, want *result, chainLen int) string {
+	shape := idShape(a, chainLen)
 	switch a.Name {
 	case "getTransactionByHash", "getTransactionReceipt", "getTransactionStatus":
 		switch {
 		case a.T == 99:
 			shape = "tx-unknown"
-		case st.Want.Kind == "err":
+		case want.Kind == "err":
 			shape = "tx-dropped" // once stored, reverted and not re-included by the fork
 		default:
 			shape = "tx-held"
 		}
 	}
+	return shape
+}
+
+func callFailure(err error) string {
+	switch {
+	case errors.Is(err, errHang):
+		return "hang"
+	case strings.HasPrefix(err.Error(), "panic:"):
+		return "panic"
+	}
+	return "transport"
+}
+
+// read sends the request of a read step to the three versions and judges every answer by the
+// property's demand `want` (`res`, the model of the code as it is, only classifies a difference).
+func (r *replayer) read(beh []step, idx int, a *action, want, res *result, chain []int, l1 int) {
+	params := r.s.params(r.w, a)
+	raw := map[string]map[string]any{}
+	shape := shapeOf(a, want, len(chain))
 	for _, v := range versions {
-		resp, req, err := r.s.call(v, a.Name, params)
+		resp, out, req, err := r.s.call(v, a.Name, params)
 		if err != nil {
-			r.diverge(fmt.Sprintf("rpc-read:%s:%s:transport", a.Name, v), "HandleReader failed: "+err.Error(), beh, idx, nil, req)
+			r.diverge(fmt.Sprintf("rpc-read:%s:%s:%s", a.Name, v, callFailure(err)), "HandleReader failed: "+err.Error(), beh, idx, nil, req)
 			continue
 		}
+		r.keep(a.Name+":"+v, out)
 		raw[v] = resp
 		got := r.s.project(r.w, a, resp)
 		r.out.Count("requests", 1)
-		want := st.Want
-		if v == "v8" && a.ID != nil && (a.ID.K == "l1_accepted" || a.ID.K == "pre_confirmed") {
+		wantV := *want
+		if v == "v8" && isTag(a) {
 			// spec difference: v0.8 has no such tag
-			want = result{Kind: "err", E: "InvalidParams"}
+			wantV = result{Kind: "err", E: "InvalidParams"}
 		}
-		d := firstDiff(a.Name, &got, &want)
+		d := firstDiff(a.Name, &got, &wantV)
 		if d == "" {
-			if want.Kind != "err" {
+			if wantV.Kind != "err" {
 				r.out.Count("answers_with_data", 1)
 				r.out.Count("data:"+a.Name, 1)
 			} else {
-				r.out.Count("err:"+want.E, 1)
+				r.out.Count("err:"+wantV.E, 1)
 			}
 			continue
 		}
 		// classify: one of the known deviations of the code as it is (the faithful model `res`
 		// differs from the property's `want` exactly there), or something new
 		key := fmt.Sprintf("rpc-read:%s:%s:%s:%s", a.Name, v, shape, d)
-		if !eqJSON(st.Res, st.Want) {
+		if !eqJSON(res, want) {
 			switch {
-			case a.Name == "getTransactionByBlockIdAndIndex" && shape == "num-absent" && firstDiff(a.Name, &got, &st.Res) == "":
+			case a.Name == "getTransactionByBlockIdAndIndex" && shape == "num-absent" && firstDiff(a.Name, &got, res) == "":
 				key = fmt.Sprintf("rpc-read:txindex-absent-block-number:%s", v)
-			case stateMethods[a.Name] && shape == "hash-zero" && st.Res.Kind == "pseudo":
+			case stateMethods[a.Name] && shape == "hash-zero" && res.Kind == "pseudo":
 				key = fmt.Sprintf("rpc-read:state-at-zero-hash:%s:%s", a.Name, r.s.backend)
 			}
 		}
-		what := fmt.Sprintf("%s %s (%s state) answered %s where the chain %v with L1 head %d demands %s",
-			v, a.Name, r.s.backend, brief(&got), st.Chain, st.L1, brief(&want))
+		what := fmt.Sprintf("%s %s (%s) answered %s where the chain %v with L1 head %d demands %s",
+			v, a.Name, r.s.backend, brief(&got), chain, l1, brief(&wantV))
 		if got.Note != "" {
 			what += " [" + got.Note + "]"
 		}
-		r.diverge(key, what, beh, idx, want, vh.J{"abstract": got, "request": params, "response": resp})
+		r.diverge(key, what, beh, idx, wantV, vh.J{"abstract": got, "request": params, "response": resp})
 	}
 	// the served versions agree wherever their responses share fields
 	for _, pair := range [][2]string{{"v8", "v9"}, {"v9", "v10"}} {
@@ -1004,7 +1248,7 @@ func (r *replayer) read(beh []step, idx int) {
 		if x == nil || y == nil {
 			continue
 		}
-		if pair[0] == "v8" && a.ID != nil && (a.ID.K == "l1_accepted" || a.ID.K == "pre_confirmed") {
+		if pair[0] == "v8" && isTag(a) {
 			continue
 		}
 		_, xe := x["error"]
@@ -1023,13 +1267,181 @@ func (r *replayer) read(beh []step, idx int) {
 		r.out.Count("version_pairs_compared", 1)
 		if d != "" {
 			key := fmt.Sprintf("rpc-read:%s:%s~%s:%s:%s", a.Name, pair[0], pair[1], shape, d)
-			if stateMethods[a.Name] && shape == "hash-zero" && st.Res.Kind == "pseudo" {
+			if stateMethods[a.Name] && shape == "hash-zero" && res.Kind == "pseudo" {
 				key = fmt.Sprintf("rpc-read:state-at-zero-hash:%s:%s", a.Name, r.s.backend)
 			}
-			r.diverge(key, fmt.Sprintf("%s and %s disagree on %s of %s (%s state)", pair[0], pair[1], d, a.Name, r.s.backend),
+			r.diverge(key, fmt.Sprintf("%s and %s disagree on %s of %s (%s)", pair[0], pair[1], d, a.Name, r.s.backend),
 				beh, idx, x, y)
 		}
 	}
+}
+
+func hashOf(parts ...any) uint64 {
+	h := fnv.New64a()
+	b, _ := json.Marshal(parts)
+	h.Write(b)
+	return h.Sum64()
+}
+
+// race replays a ReadDuring step: for every version and every store read k of the request, one
+// copy of the request is started and blocked at its k-th read; then the mutators run (the sync
+// loop reorganising the head while the requests are being served); then all are released. Each
+// answer must be the right one for ONE of the chains the node held during the call. Afterwards
+// every version is asked again, sequentially, and must answer for the final chain exactly.
+func (r *replayer) race(beh []step, idx int) {
+	st := &beh[idx]
+	a := st.A.Read
+	allowed := st.Want.Allowed
+	params := r.s.params(r.w, a)
+	req := requestJSON(a.Name, params)
+	type answer struct {
+		out []byte
+		err error
+	}
+	type flight struct {
+		v       string
+		k, n    int
+		done    chan answer
+		release func()
+	}
+	var flights []*flight
+	for _, v := range versions {
+		// how many store reads does this request make (in the state the call starts in)?
+		n := 0
+		if err := guarded(func() error {
+			n = r.s.store.p.countReads(func() { _, _ = r.s.handle(v, req) })
+			return nil
+		}); err != nil {
+			r.diverge(fmt.Sprintf("rpc-read:%s:%s:%s", a.Name, v, callFailure(err)), "HandleReader failed: "+err.Error(), beh, idx, nil, req)
+			continue
+		}
+		for k := 1; k <= n; k++ {
+			paused, release := r.s.store.p.arm(k)
+			f := &flight{v: v, k: k, n: n, done: make(chan answer, 1), release: release}
+			go func() {
+				var out []byte
+				err := func() (err error) {
+					defer func() {
+						if p := recover(); p != nil {
+							err = fmt.Errorf("panic: %v", p)
+						}
+					}()
+					out, err = r.s.handle(f.v, req)
+					return err
+				}()
+				f.done <- answer{out, err}
+			}()
+			select {
+			case <-paused:
+				flights = append(flights, f)
+			case x := <-f.done: // fewer reads than in the dry run: the request simply came first
+				f.done <- x
+				flights = append(flights, f)
+			case <-time.After(callTimeout):
+				hangs++
+				release()
+				r.diverge(fmt.Sprintf("rpc-read:%s:%s:hang", a.Name, v), "request neither reached its store read nor returned", beh, idx, nil, req)
+			}
+		}
+	}
+	r.s.store.p.disarm()
+	releaseAll := func() {
+		for _, f := range flights {
+			f.release()
+		}
+	}
+	mutSig := make([]string, 0, len(st.A.Muts))
+	serialised := false
+	for i := range st.A.Muts {
+		m := &st.A.Muts[i]
+		mutSig = append(mutSig, m.Name)
+		mdone := make(chan error, 1)
+		go func() { mdone <- r.applyMutator(beh, idx, m, m.Chain, m.L1) }()
+		var err error
+		select {
+		case err = <-mdone:
+		case <-time.After(raceGrace):
+			// the writer waits for the readers: let the requests finish first (code that
+			// serialises readers and writers is correct, not hung)
+			releaseAll()
+			serialised = true
+			err = <-mdone
+		}
+		if err != nil {
+			releaseAll()
+			return
+		}
+	}
+	releaseAll()
+	if serialised {
+		r.out.Count("inflight_serialised_by_the_code", 1)
+	}
+	muts := strings.Join(mutSig, "+")
+	shape := shapeOf(a, &allowed[len(allowed)-1], len(st.Chain))
+	r.out.Count("inflight_steps", 1)
+	r.out.Count("inflight:"+muts, 1)
+	for _, f := range flights {
+		var ans answer
+		select {
+		case ans = <-f.done:
+		case <-time.After(callTimeout):
+			hangs++
+			ans = answer{err: errHang}
+		}
+		v, k, n := f.v, f.k, f.n
+		r.out.Count("inflight_reads", 1)
+		if ans.err != nil {
+			r.diverge(fmt.Sprintf("rpc-read:torn-%s:%s:%s:%s:%s", callFailure(ans.err), a.Name, v, shape, muts),
+				fmt.Sprintf("%s %s (%s) failed while %s ran between its store reads %d and %d of %d: %v", v, a.Name, r.s.backend, muts, k-1, k, n, ans.err),
+				beh, idx, allowed, ans.err.Error())
+			continue
+		}
+		resp, err := decode(ans.out)
+		if err != nil {
+			r.diverge(fmt.Sprintf("rpc-read:torn-unparsable:%s:%s:%s:%s", a.Name, v, shape, muts), err.Error(), beh, idx, allowed, string(ans.out))
+			continue
+		}
+		r.keep(a.Name+":"+v, ans.out)
+		got := r.s.project(r.w, a, resp)
+		ok := false
+		for i := range allowed {
+			w := allowed[i]
+			if v == "v8" && isTag(a) {
+				w = result{Kind: "err", E: "InvalidParams"}
+			}
+			if firstDiff(a.Name, &got, &w) == "" {
+				ok = true
+				break
+			}
+		}
+		if ok {
+			r.out.Count("inflight_answers_of_a_held_chain", 1)
+			continue
+		}
+		names := make([]string, len(allowed))
+		for i := range allowed {
+			names[i] = brief(&allowed[i])
+		}
+		what := fmt.Sprintf("%s %s (%s) answered %s while %s ran between its store reads %d and %d of %d; the chains held during the call demand one of %v",
+			v, a.Name, r.s.backend, brief(&got), muts, k-1, k, n, names)
+		if got.Note != "" {
+			what += " [" + got.Note + "]"
+		}
+		key := fmt.Sprintf("rpc-read:torn:%s:%s:%s:%s", a.Name, v, shape, muts)
+		if a.Name == "getTransactionByBlockIdAndIndex" && a.ID.K == "num" && got.Kind == "err" && got.E == "InvalidTxnIndex" &&
+			allowed[len(allowed)-1].Kind == "err" {
+			// the listed deviation (absent block number => INVALID_TXN_INDEX), not a torn read
+			key = fmt.Sprintf("rpc-read:txindex-absent-block-number:%s", v)
+		}
+		r.diverge(key, what, beh, idx, allowed, vh.J{"abstract": got, "request": params, "response": resp, "gate": k, "reads": n})
+	}
+	// once the dust has settled every version answers for the final chain
+	last := allowed[len(allowed)-1]
+	asIs := last
+	if a.Name == "getTransactionByBlockIdAndIndex" && a.ID.K == "num" && a.ID.N >= len(st.Chain) {
+		asIs = result{Kind: "err", E: "InvalidTxnIndex"} // what the model of the code as it is answers (ITxByIndex)
+	}
+	r.read(beh, idx, a, &last, &asIs, st.Chain, st.L1)
 }
 
 func brief(r *result) string {
@@ -1071,12 +1483,18 @@ func TestRpcReadReplay(t *testing.T) {
 	defer out.Write()
 	backends := in.Backends
 	if len(backends) == 0 {
-		backends = []string{"legacy", "newstate"}
+		backends = []string{"legacy", "newstate", "pebble"}
 	}
-	steps := 0
+	if in.Huge > 0 {
+		hugeNum = in.Huge
+	}
+	steps, replayed := 0, 0
 	for bi, beh := range in.Behaviours {
 		for _, be := range backends {
-			s, err := newSUT(be == "newstate")
+			if be == "pebble" && len(in.Backends) == 0 && (in.First+bi)%2 == 1 && !vh.Thorough() {
+				continue // quick tier: Pebble on every other behaviour
+			}
+			s, err := newSUT(be)
 			if err != nil {
 				t.Fatal(err)
 			}
@@ -1084,23 +1502,31 @@ func TestRpcReadReplay(t *testing.T) {
 			for i := range beh {
 				st := &beh[i]
 				switch st.A.Name {
-				case "Store", "Revert", "SetL1Head":
-					if err := r.mutate(&st.A); err != nil {
-						t.Fatalf("behaviour %d step %d %s on %s: %v", in.First+bi, i, st.A.Name, be, err)
-					}
-					if err := r.checkHeld(st); err != nil {
-						t.Fatalf("behaviour %d step %d %s on %s: %v", in.First+bi, i, st.A.Name, be, err)
-					}
-					out.Count("mutations_"+st.A.Name, 1)
+				case "Store", "Revert", "SetL1Head", "Restart":
+					_ = r.applyMutator(beh, i, &st.A, st.Chain, st.L1)
+				case "ReadDuring":
+					r.race(beh, i)
 				default:
-					r.read(beh, i)
+					r.read(beh, i, &st.A, &st.Want, &st.Res, st.Chain, st.L1)
+				}
+				if r.dead || hangs >= maxHangs {
+					break
 				}
 				steps++
 			}
+			r.checkRetained(beh, len(beh)-1)
+			s.closeDB()
+			replayed++
 		}
 		if bi < 2 {
 			out.Sample(vh.J{"behaviour": in.First + bi, "steps": len(beh), "first_steps": beh[:min(len(beh), 6)]})
 		}
+		if bi%20 == 19 {
+			_ = out.Write() // partial results survive a later hard failure
+		}
+		if hangs >= maxHangs {
+			break // the real code keeps hanging: report what was recorded
+		}
 	}
-	out.Done(len(in.Behaviours)*len(backends), steps)
+	out.Done(replayed, steps)
 }
